@@ -78,6 +78,97 @@ func concMpsc(args []string, out *bufio.Writer) {
 			}
 			continue
 		}
+		if i%3 == 1 && r.chance(0.6) {
+			// scenario T: producers take one of capacity-1 tickets before every offer and the consumer hands the ticket back
+			// after the poll, so the queue never holds its maximum: no offer may be refused.  A producer that read its
+			// indices before the consumer and another producer moved on (stale producer index, newer consumer index) must
+			// still see "room left".
+			ini := pick(r, []uint32{2, 4, 4, 8})
+			mx := pick(r, []uint32{4, 4, 8, 32})
+			if mx < ini {
+				mx = ini
+			}
+			q := queue.NewMPSC[ev](ini, mx)
+			capacity := q.VerifCapacity()
+			producers := 4 + r.intn(8)
+			tickets := int64(capacity - 1)
+			if tickets < 1 {
+				tickets = 1
+			}
+			fmt.Fprintf(out, "scenario ticket producers=%d per=0 capacity=%d\n", producers, capacity)
+			prev := runtime.GOMAXPROCS(4 * runtime.NumCPU())
+			var inFlight atomic.Int64
+			var stop atomic.Bool
+			refused := make([]int, producers)
+			sent := make([]int, producers)
+			var wg sync.WaitGroup
+			for p := 0; p < producers; p++ {
+				wg.Add(1)
+				go func(p int) {
+					defer wg.Done()
+					for !stop.Load() {
+						n := inFlight.Load()
+						if n >= tickets || !inFlight.CompareAndSwap(n, n+1) {
+							continue
+						}
+						if !q.TryPush(&ev{p, sent[p]}) {
+							refused[p]++
+							inFlight.Add(-1)
+							stop.Store(true)
+							return
+						}
+						sent[p]++
+					}
+				}(p)
+			}
+			var got []ev
+			cdone := make(chan struct{})
+			go func() {
+				defer close(cdone)
+				for !stop.Load() {
+					if e := q.TryPop(); e != nil {
+						got = append(got, *e)
+						inFlight.Add(-1)
+					}
+				}
+			}()
+			budget := time.Duration(20+r.intn(40)) * time.Millisecond
+			t0 := time.Now()
+			for !stop.Load() && time.Since(t0) < budget && len(got) < 60000 {
+				time.Sleep(time.Millisecond)
+			}
+			stop.Store(true)
+			wg.Wait()
+			<-cdone
+			runtime.GOMAXPROCS(prev)
+			for {
+				e := q.TryPop()
+				if e == nil {
+					break
+				}
+				got = append(got, *e)
+			}
+			for p := 0; p < producers; p++ {
+				fmt.Fprintf(out, "refused %d %d size=%d\n", p, refused[p], q.Size())
+			}
+			if len(got) > 4000 {
+				// keep the transcript small: the per-producer order of a suffix is checked from its first sequence numbers on
+				got = got[:4000]
+				for p := range sent {
+					sent[p] = -1
+				}
+			}
+			for _, e := range got {
+				fmt.Fprintf(out, "deliver %d %d\n", e.p, e.seq)
+			}
+			for p := 0; p < producers; p++ {
+				if sent[p] >= 0 {
+					fmt.Fprintf(out, "sent %d %d\n", p, sent[p])
+				}
+			}
+			fmt.Fprintf(out, "end\n")
+			continue
+		}
 		ini := pick(r, []uint32{2, 4, 8, 16})
 		mx := pick(r, []uint32{4, 8, 32, 128, 1024, 2048})
 		if mx < ini {
